@@ -75,6 +75,10 @@ func (enc *Encoder) writeTimePart(hour int, min int, sec int, nsec int) {
 }
 
 func (enc *Encoder) writeTime(t time.Time) {
+	if loc := t.Location(); loc != time.UTC && loc != time.Local {
+		// only UTC and local time can be expressed; keep the instant
+		t = t.Local()
+	}
 	year, month, day := t.Date()
 	hour, min, sec := t.Clock()
 	nsec := t.Nanosecond()
